@@ -422,9 +422,14 @@ RestartSrv ==
                                             [ss |-> [s \in Sess |-> [sel |-> "", ro |-> FALSE, idle |-> FALSE,
                                                                      pend |-> <<>>, open |-> TRUE]],
                                              out |-> NoOut])]
-       IN /\ msgs' = TLCEval([m \in Mbox |-> res[m].ms])
-          /\ fseq' = [m \in Mbox |-> IF res[m].n > 0 THEN res[m].fq ELSE fseq[m]]
-          /\ next' = [m \in Mbox |-> res[m].nx]
+           (* Mailbox.new: the resync at activation is forced only for a mailbox that is
+              \Marked (had unseen or recent messages at its last resync - approximated by
+              its current flags); otherwise it happens when the folder's mtime moved *)
+           sync == [m \in Mbox |-> dirty[m] \/ \E i \in DOMAIN msgs[m] :
+                                       msgs[m][i].fl \cap {"unseen", "Recent"} # {}]
+       IN /\ msgs' = TLCEval([m \in Mbox |-> IF sync[m] THEN res[m].ms ELSE msgs[m]])
+          /\ fseq' = [m \in Mbox |-> IF sync[m] /\ res[m].n > 0 THEN res[m].fq ELSE fseq[m]]
+          /\ next' = [m \in Mbox |-> IF sync[m] THEN res[m].nx ELSE next[m]]
     /\ ss' = [s \in Sess |-> [sel |-> "", ro |-> FALSE, idle |-> FALSE, pend |-> <<>>, open |-> TRUE]]
     /\ dirty' = [m \in Mbox |-> FALSE]
     /\ force' = [m \in Mbox |-> FALSE]
